@@ -592,10 +592,26 @@ func RunJavascript(ctx *Context, bs *Bindings, props map[string]interface{}, src
 
 	env["bindings"] = envBindings
 
+	// deadline is when the script's time is up (zero if it has all the
+	// time it wants).  Set below, before the script runs.
+	var deadline time.Time
+
 	env["sleep"] = func(call otto.FunctionCall) otto.Value {
 		Log(DEBUG, ctx, "core.RunJavascript", "f", "sleep", "call", call)
 		ns, _ := call.Argument(0).ToInteger()
-		time.Sleep(time.Duration(ns) * time.Nanosecond)
+		d := time.Duration(ns) * time.Nanosecond
+		if !deadline.IsZero() {
+			// The interpreter looks for its interrupt between
+			// steps, not while we sleep: don't sleep through
+			// the script's time limit.
+			if left := time.Until(deadline); left < d {
+				if 0 < left {
+					time.Sleep(left)
+				}
+				panic(Halt)
+			}
+		}
+		time.Sleep(d)
 		return call.Argument(0)
 	}
 
@@ -958,10 +974,19 @@ func RunJavascript(ctx *Context, bs *Bindings, props map[string]interface{}, src
 
 	if SystemParameters.JavascriptTimeouts && 0 <= int64(timeout) {
 		start := time.Now()
+		deadline = start.Add(timeout)
 		Log(DEBUG, ctx, "core.RunJavascript", "timeout", timeout, "start", start)
 		defer func() {
 			duration := time.Since(start)
-			if caught := recover(); caught != nil {
+			caught := recover()
+			if caught == nil && rerr == nil && timeout < duration {
+				// The script got past its limit in something the
+				// interpreter cannot interrupt (a function of
+				// ours, one long native step): too late is too
+				// late, even if it came back by itself.
+				caught = Halt
+			}
+			if caught != nil {
 				if caught == Halt {
 					Log(WARN, ctx, "core.RunJavascript", "timedout", timeout,
 						"after", duration, "time", time.Now())
